@@ -431,7 +431,26 @@ def check_file(path, kind, rng, rec):
         expected = bytearray(data)
         new_content = {}
         ops = []
+        # history on one object: the file may be serialised before the edits and between them (a tool that
+        # saves, patches, saves again); the last serialisation is the one compared
+        serialise_between = rng.random() < 0.5
+        if serialise_between:
+            try:
+                if bytes(e) != data:
+                    rec.fail("second unmodified serialisation of a fresh parse differs", cls, wit)
+                    return
+            except Exception as exc:
+                rec.fail("serialisation raises %s" % type(exc).__name__, repr(exc), wit)
+                return
+            rec.count("sessions_serialised_before_edit")
         for _ in range(rng.choice([1, 1, 2, 3])):
+            if serialise_between and ops and rng.random() < 0.5:
+                try:
+                    bytes(e)
+                    ops.append(("serialise",))
+                except Exception as exc:
+                    rec.fail("serialisation raises %s" % type(exc).__name__, repr(exc), dict(wit, edits=ops))
+                    return
             if runs and (session_kind == "span" or rng.random() < 0.15):
                 # ---- one virtual write over 2, 3 or more adjacent sections
                 run = rng.choice(runs)
@@ -607,6 +626,8 @@ def run_shard(params, rec):
 
 def floors(tier, counters, evaluations):
     miss = []
+    if counters.get("sessions_serialised_before_edit", 0) < 0.2 * counters.get("edit_sessions", 0):
+        miss.append("fewer than 20% of the edit sessions serialise the object before editing it")
     built_kinds = [k for k in KINDS if counters.get("kind:" + k, 0) > 0]
     if len(built_kinds) < 30:
         miss.append("only %d of %d toolchain variants produced an accepted file" % (len(built_kinds), len(KINDS)))
